@@ -819,6 +819,15 @@ def run_faults_case(case: dict) -> Outcome:
             raise Violation("faulty-address-not-served", f"datagrams {missing} queued behind the failing handler were never answered (answers: {got})", **details)
         if want_later:
             classes.append("udp-queued-behind-fault")
+        # the datagram whose handler failed is consumed by that failure: it must not come back to a later handler
+        # (a server that does not drop it re-feeds it to every fresh generator)
+        unexpected = [e for e in got if e not in info["expected"][fp]]
+        if unexpected:
+            raise Violation(
+                "stale-datagram-redelivered",
+                f"the faulty address received answers {unexpected} to datagrams whose handling had failed (expected answers: {info['expected'][fp]})",
+                **details,
+            )
     else:
         # 4t. the failing connection is closed and the disconnection hook ran iff on_connection had completed
         if not info["closed"].get(fp):
